@@ -203,15 +203,17 @@ bool StepScript(InterpreterEnv& env)
             // if (!scriptSig.IsPushOnly())
             //     return set_error(serror, SCRIPT_ERR_SIG_PUSHONLY);
 
+            // The saved stack holds the serialized redeem script on top. In VerifyScript it cannot be
+            // empty here (the P2SH  HASH <> EQUAL  scriptPubKey would have failed on an empty stack);
+            // in a session it can, e.g. when the preimage was pushed with `exec` after the stack was
+            // saved: fail the script rather than the process.
+            if (env.p2shstack.empty())
+                return set_error(serror, SCRIPT_ERR_INVALID_STACK_OPERATION);
+
             // Restore stack.
             is_p2sh = false;
             stack = env.p2shstack;
             // swap(stack, stackCopy);
-
-            // stack cannot be empty here, because if it was the
-            // P2SH  HASH <> EQUAL  scriptPubKey would be evaluated with
-            // an empty stack and the EvalScript above would return false.
-            assert(!stack.empty());
 
             const valtype& pubKeySerialized = stack.back();
             CScript pubKey2(pubKeySerialized.begin(), pubKeySerialized.end());
